@@ -39,11 +39,27 @@ func callName(e ast.Expr) string {
 // io.Writer / io.Reader, and anything built from one of them (bufio writers, scanners, snapshotScanner(f), ...)
 var fileVars = map[string]bool{}
 
+// parameters of an INTERFACE type (io.Writer / io.Reader): whether a file is behind them depends on the caller. Operations on
+// them are scheduling points like any other, but of kind "FSu" (uncertain): the trace replay does not demand a lock around them.
+var ifaceVars = map[string]bool{}
+
+// operations that only make sure a DIRECTORY exists (idempotent, safe to repeat concurrently): kind "FSd"
+var osDirOnly = map[string]bool{"MkdirAll": true, "Mkdir": true}
+
 var osFS = map[string]bool{"ReadFile": true, "WriteFile": true, "OpenFile": true, "Open": true, "Create": true, "MkdirAll": true,
 	"Mkdir": true, "Remove": true, "RemoveAll": true, "Rename": true, "ReadDir": true, "Truncate": true}
 
 var fileMethods = map[string]bool{"Write": true, "WriteString": true, "Truncate": true, "Read": true, "ReadFrom": true,
 	"WriteTo": true, "Flush": true, "ReadAt": true, "WriteAt": true, "Scan": true, "ReadString": true, "ReadBytes": true, "ReadLine": true}
+
+func usesOnlyIfaceVars(args []ast.Expr) bool {
+	for _, a := range args {
+		if id, ok := a.(*ast.Ident); ok && fileVars[id.Name] && !ifaceVars[id.Name] {
+			return false
+		}
+	}
+	return true
+}
 
 func usesFileVar(args []ast.Expr) bool {
 	for _, a := range args {
@@ -57,6 +73,7 @@ func usesFileVar(args []ast.Expr) bool {
 // collect the file variables of a function (flow-insensitive, two passes for chains like f -> w -> ...)
 func collectFileVars(fn *ast.FuncDecl) {
 	fileVars = map[string]bool{}
+	ifaceVars = map[string]bool{}
 	if fn.Type.Params != nil {
 		for _, fld := range fn.Type.Params.List {
 			ts := fmt.Sprint(fld.Type)
@@ -66,6 +83,9 @@ func collectFileVars(fn *ast.FuncDecl) {
 			if ts == "*os.File" || ts == "io.Writer" || ts == "io.Reader" || ts == "*bufio.Scanner" || ts == "*bufio.Writer" || ts == "io.ReadWriter" {
 				for _, n := range fld.Names {
 					fileVars[n.Name] = true
+					if ts == "io.Writer" || ts == "io.Reader" || ts == "io.ReadWriter" {
+						ifaceVars[n.Name] = true
+					}
 				}
 			}
 		}
@@ -126,12 +146,22 @@ func kindsOf(e ast.Node, inOpenFn bool) []string {
 			if sel, ok := x.Fun.(*ast.SelectorExpr); ok {
 				if id, ok := sel.X.(*ast.Ident); ok {
 					switch {
+					case id.Name == "os" && osDirOnly[sel.Sel.Name]:
+						ks = append(ks, "FSd")
 					case id.Name == "os" && osFS[sel.Sel.Name]:
 						ks = append(ks, "FS")
 					case fileVars[id.Name] && fileMethods[sel.Sel.Name]:
-						ks = append(ks, "FS")
+						if ifaceVars[id.Name] {
+							ks = append(ks, "FSu")
+						} else {
+							ks = append(ks, "FS")
+						}
 					case (id.Name == "fmt" || id.Name == "io") && usesFileVar(x.Args) && !strings.HasPrefix(sel.Sel.Name, "New"):
-						ks = append(ks, "FS")
+						if usesOnlyIfaceVars(x.Args) {
+							ks = append(ks, "FSu")
+						} else {
+							ks = append(ks, "FS")
+						}
 					}
 				}
 			}
@@ -191,8 +221,17 @@ func rewriteBlock(b *ast.BlockStmt, inOpenFn bool, depth int) {
 			ks = append(ks, kindsOf(s.Init, inOpenFn)...)
 			ks = append(ks, kindsOf(s.Cond, inOpenFn)...)
 			rewriteBlock(s.Body, inOpenFn, depth+1)
-			if eb, ok := s.Else.(*ast.BlockStmt); ok {
-				rewriteBlock(eb, inOpenFn, depth+1)
+			for el := s.Else; el != nil; {
+				switch e := el.(type) {
+				case *ast.BlockStmt:
+					rewriteBlock(e, inOpenFn, depth+1)
+					el = nil
+				case *ast.IfStmt: // else if: its own init / condition get no scheduling point of their own, its bodies do
+					rewriteBlock(e.Body, inOpenFn, depth+1)
+					el = e.Else
+				default:
+					el = nil
+				}
 			}
 		case *ast.ForStmt:
 			if isScanLoop(s) && len(kindsOf(s.Cond, inOpenFn)) > 0 {
@@ -204,6 +243,11 @@ func rewriteBlock(b *ast.BlockStmt, inOpenFn bool, depth int) {
 		case *ast.BlockStmt:
 			rewriteBlock(s, inOpenFn, depth+1)
 		case *ast.DeferStmt:
+			// defer func() { ...; _m.Unlock() }()  : the statements of the closure are rewritten like any block
+			if fl, ok := s.Call.Fun.(*ast.FuncLit); ok {
+				rewriteBlock(fl.Body, inOpenFn, depth+1)
+				break
+			}
 			// defer _m.Unlock()  =>  defer func() { verifYield("Unlock"); _m.Unlock() }()
 			dk := kindsOf(s.Call, inOpenFn)
 			if len(dk) > 0 {
@@ -217,6 +261,18 @@ func rewriteBlock(b *ast.BlockStmt, inOpenFn bool, depth int) {
 			}
 		case *ast.SwitchStmt:
 			rewriteBlock(s.Body, inOpenFn, depth+1)
+		case *ast.TypeSwitchStmt:
+			rewriteBlock(s.Body, inOpenFn, depth+1)
+		case *ast.SelectStmt:
+			rewriteBlock(s.Body, inOpenFn, depth+1)
+		case *ast.CommClause:
+			inner := &ast.BlockStmt{List: s.Body}
+			rewriteBlock(inner, inOpenFn, depth+1)
+			s.Body = inner.List
+		case *ast.LabeledStmt:
+			if bs, ok := s.Stmt.(*ast.BlockStmt); ok {
+				rewriteBlock(bs, inOpenFn, depth+1)
+			}
 		case *ast.CaseClause:
 			inner := &ast.BlockStmt{List: s.Body}
 			rewriteBlock(inner, inOpenFn, depth+1)
